@@ -22,6 +22,7 @@ AxisClass(r, dims, k) ==
                  IF to \notin PosWords \cup {"none"} THEN "unknown-position-word"
                  ELSE IF to = from THEN "shift-to-the-same-position"
                  ELSE IF to = "none" \/ to \notin PresentPos(ax) THEN "position-the-axis-lacks"
+                 ELSE IF ~ValidShift(from, to) THEN "shift-between-two-face-positions"
                  ELSE AxisClass(r, ReplaceDim(dims, DimOfPos(ax, from), DimOfPos(ax, to)), k + 1)
 
 IllClass(r) ==
